@@ -21,6 +21,8 @@ import (
 //	                                                   <from>, <tables> = hash of <to> without freshness labels)
 //	Z <hash>                                           state expanded, no default event enabled
 //	K <hash> <rounds>                                  closure: round-robin from <hash> reached the fixed point
+//	A <from> <op> <hist> <tables>                      twin audit (twins.go): <op> executed in canonical state <from>
+//	                                                   reached by history <hist> ends in <tables>
 //	S <hash> <mode> <quiescent 0|1> <ok 0|1> <best tables> <detail>   first time a process sees <hash>
 type Trace struct {
 	f      *os.File
